@@ -41,12 +41,13 @@ pub fn fields_of(tys: &[Ty]) -> Vec<Field> {
 }
 pub fn strukt(repr_c: bool, style: Style, fields: Vec<Field>) -> Ty {
     let style = if fields.is_empty() && style == Style::Tuple { Style::Unit } else { style };
-    Ty::Def(mk_def(DefKind::Struct(StructDef { repr_c, style, fields }), false, 0))
+    Ty::Def(mk_def(DefKind::Struct(StructDef { repr_c, align: None, style, fields }), false, 0))
 }
 pub fn strukt_default(repr_c: bool, fields: Vec<Field>) -> Ty {
     Ty::Def(mk_def(
         DefKind::Struct(StructDef {
             repr_c,
+            align: None,
             style: Style::Named,
             fields,
         }),
@@ -232,6 +233,7 @@ pub fn f_types(thorough: bool) -> Vec<Ty> {
             out.push(Ty::Def(mk_def(
                 DefKind::Struct(StructDef {
                     repr_c,
+                    align: None,
                     style: Style::Named,
                     fields: vec![fa, fb],
                 }),
@@ -398,6 +400,28 @@ pub fn f_types(thorough: bool) -> Vec<Ty> {
             out.push(strukt(false, Style::Named, fields_of(&with_tail)));
         }
     }
+    // over-aligned structs: larger than the sum of their fields, so never one raw block
+    {
+        let al = |repr_c: bool, align: u32, style: Style, tys: &[Ty]| {
+            Ty::Def(mk_def(
+                DefKind::Struct(StructDef {
+                    repr_c,
+                    align: Some(align),
+                    style,
+                    fields: fields_of(tys),
+                }),
+                false,
+                0,
+            ))
+        };
+        out.push(al(true, 16, Style::Named, &[Ty::Array(Box::new(p(Prim::F32)), 3)]));
+        out.push(al(false, 8, Style::Tuple, &[p(Prim::U32)]));
+        out.push(al(false, 4, Style::Tuple, &[p(Prim::U8)]));
+        out.push(al(true, 8, Style::Named, &[p(Prim::U32), p(Prim::U32)])); // exactly fills: may be packed
+        out.push(al(true, 8, Style::Named, &[p(Prim::U16), p(Prim::U16)]));
+        out.push(al(false, 16, Style::Named, &[p(Prim::U64), p(Prim::U32)]));
+        out.push(al(false, 2, Style::Tuple, &[p(Prim::Bool)]));
+    }
     // structs all of whose fields were added later: at data version 0 they consume no bytes at all
     for repr_c in [false, true] {
         let mut a = Field::plain("a", p(Prim::U8));
@@ -538,6 +562,38 @@ pub fn f_lib(_thorough: bool) -> Vec<Ty> {
     out.push(lib("Point3f32", "vglue::nalgebra::Point3<f32>", Ty::Tuple(vec![p(F32), p(F32), p(F32)])));
     out.push(lib("Vector3f64", "vglue::nalgebra::Vector3<f64>", Ty::Tuple(vec![p(F64), p(F64), p(F64)])));
     out.push(Ty::Seq(Vec, b(lib("Point3f32", "vglue::nalgebra::Point3<f32>", Ty::Tuple(vec![p(F32), p(F32), p(F32)])))));
+    // an Isometry3 is documented as translation x,y,z then rotation w,i,j,k (NOT its memory order)
+    let iso32 = lib("Isometry3f32", "vglue::nalgebra::Isometry3<f32>", Ty::Tuple(vec![p(F32); 7]));
+    let iso64 = lib("Isometry3f64", "vglue::nalgebra::Isometry3<f64>", Ty::Tuple(vec![p(F64); 7]));
+    let pt32 = lib("Point3f32", "vglue::nalgebra::Point3<f32>", Ty::Tuple(vec![p(F32), p(F32), p(F32)]));
+    out.push(iso32.clone());
+    out.push(iso64.clone());
+    out.push(Ty::Seq(Vec, b(iso64.clone())));
+    out.push(Ty::Array(b(iso32.clone()), 3));
+    // derived structs all of whose fields are fixed-size: the struct asks its fields whether
+    // the whole of it may be copied as raw memory
+    for repr_c in [false, true] {
+        out.push(strukt(repr_c, Style::Named, fields_of(&[p(F64), iso64.clone()])));
+        out.push(strukt(repr_c, Style::Named, fields_of(&[iso32.clone(), p(F32)])));
+        out.push(strukt(repr_c, Style::Named, fields_of(&[p(F32), pt32.clone()])));
+        out.push(strukt(repr_c, Style::Named, fields_of(&[pt32.clone(), pt32.clone()])));
+    }
+    out.push(Ty::Opt(b(strukt(true, Style::Named, fields_of(&[p(F64), iso64.clone()])))));
+    // tuples without padding whose elements rustc stores in another order than declared
+    out.push(Ty::Tuple(vec![p(U16), p(U32), p(U16)]));
+    out.push(Ty::Tuple(vec![p(U32), p(U64), p(U32)]));
+    out.push(Ty::Tuple(vec![p(U8), p(U16), p(U8)]));
+    out.push(Ty::Tuple(vec![p(U8), p(Bool), p(U8)]));
+    out.push(Ty::Tuple(vec![p(U8), p(U64)]));
+    // element type with a counted destructor (rejects the byte 0xFF): error paths of sequence
+    // and array loaders must not drop what they never built
+    let probe = lib("DropProbe", "vglue::probe::DropProbe", p(U8));
+    out.push(probe.clone());
+    out.push(Ty::Array(b(probe.clone()), 3));
+    out.push(Ty::Seq(Vec, b(probe.clone())));
+    out.push(Ty::Seq(VecDeque, b(probe.clone())));
+    out.push(Ty::Tuple(vec![probe.clone(), probe.clone()]));
+    out.push(Ty::Array(b(Ty::Opt(b(p(String)))), 3));
     // library types whose wire format is not modelled (value shape only)
     out.push(opaque_lib("BitVec", "vglue::bit_vec::BitVec", Ty::Seq(Vec, b(p(Bool)))));
     out.push(opaque_lib("BitVec08", "vglue::bit_vec08::BitVec", Ty::Seq(Vec, b(p(Bool)))));
